@@ -312,8 +312,9 @@ func (e *Enc) execAppend(fr *Frame, c *ssa.CallCommon, args []Val, cur *pathStat
 	a := e.allocComp()
 	fr0 := e.fresh("apparr")
 	e.declare(fr0, "Ref")
-	e.assume(fmt.Sprintf("(and (not (= %s nil)) (= (atime %s) %s))", fr0, fr0, e.get(cur.st, a)))
-	e.set(cur.st, a, "(+ "+e.get(cur.st, a)+" 1)")
+	afact, anext := allocNew(e.get(cur.st, a), fr0)
+	e.assume(and(not(eq(fr0, "nil")), afact))
+	e.set(cur.st, a, anext)
 	ncap := e.fresh("appcap")
 	e.declare(ncap, "Int")
 	e.assume(fmt.Sprintf("(>= %s (+ (s_len %s) %s))", ncap, s, n))
